@@ -30,9 +30,10 @@ class GroupCtx:
          'jac'    (x, y, z) with y == 0            (secp256k1 Jacobian)
          'aff00'  (0, 0)                           (secp256k1 affine)"""
 
-    def __init__(self, name, style):
+    def __init__(self, name, style, coord_cls=None):
         self.name, self.style = name, style
         self.atoms = {}     # name -> dict(order=int|None, nonzero=bool)
+        self.coord_cls = coord_cls   # ClassVal of the coordinates' field class, when the unit fixes it
 
     def atom(self, name, order=None, nonzero=False):
         self.atoms[name] = dict(order=order, nonzero=nonzero)
@@ -153,6 +154,13 @@ class GCoord:
             return _CoordClass(self.pt.grp)
         raise Unsupported(f"coordinate attribute {name} of an abstract point (group-level code must go through "
                           f"the curve functions' contracts)")
+
+    def sym_isinstance(self, interp, t):
+        from .interp import ClassVal
+        cc = self.pt.grp.coord_cls
+        if cc is None or not isinstance(t, ClassVal):
+            raise Unsupported("type test on a coordinate of an abstract point whose field class is not fixed")
+        return cc.is_subclass(t)
 
     def _is_marker_coord(self):
         st = self.pt.grp.style
